@@ -668,18 +668,30 @@ PROPS["C28"] = dict(
 PROPS["C08"] = dict(
     title="Protected calls succeed exactly when the access rule is satisfied",
     functions=["radix_engine::system::system_modules::auth::Authorization::{check_authorization_against_access_rule, "
-               "verify_auth_rule, verify_proof_rule}"],
-    bounds="AllowAll, DenyAll and every Protected rule tree of composite depth <= 1 (quick) / <= 2 (thorough) with lists "
-           "of 2 entries, all five basic requirement forms over 3 non-fungible badges and 2 resources, any u8 count, any "
-           "amount <= 10^12 XRD; every set of visible badges: each badge held or not, an optional fungible proof with any "
-           "amount",
-    outside="the auth-zone stack traversal itself (the two private leaf predicates are an environment stub in the symbolic "
-            "run; the native replay uses the real ones over real AuthZone substates behind a mock kernel), implicit "
-            "package / global-caller proofs, resource simulation, the owner-role fallback and role-key lookup in "
-            "check_authorization_against_role_key_internal (key-value substates), rule trees that are wider or deeper",
-    assumptions=["auth_zone_stack_matches_rule answers 'the badge is visible' (non-fungible badge held / a proof of that "
-                 "resource present) and auth_zone_stack_has_amount answers 'a proof of that resource with at least the "
-                 "amount is present'"],
+               "verify_auth_rule, verify_proof_rule}",
+               "Authorization::{auth_zone_stack_matches_rule, auth_zone_stack_has_amount, auth_zone_stack_matches, "
+               "global_auth_zone_matches, proof_matches} and AuthZone::local_implicit_non_fungible_proofs, "
+               "GlobalCaller::is_actually_frame_owned"],
+    bounds="(a) rule trees: AllowAll, DenyAll and every Protected rule tree of composite depth <= 1 (quick) / <= 2 "
+           "(thorough) with lists of 2 entries, all five basic requirement forms over 3 non-fungible badges and 2 "
+           "resources, any u8 count, any amount <= 10^12 XRD; every set of visible badges. (b) leaf predicates over the "
+           "auth-zone stack: the actor's zone, a caller chain of <= 2 zones and a global-caller chain of <= 2 zones (3 "
+           "topologies quick, all 9 thorough), <= 2 proofs per zone with any resource (of 2) / amount <= 10^12 XRD / id, "
+           "one simulated resource and one implicit badge per zone, optional direct-caller package, global caller of "
+           "either kind incl. the frame-owned marker",
+    outside="(a) uses the leaf predicates as an environment stub and (b) decides them separately over the real traversal; "
+            "the two are composed by assume-guarantee, not run as one query. Outside: zone chains longer than 2, more than "
+            "2 proofs per zone, proofs with several ids, the owner-role fallback and role-key lookup in "
+            "check_authorization_against_role_key_internal (key-value substates), rule trees that are wider or deeper, "
+            "how auth zones are built (auth_module.rs)",
+    assumptions=["(a) auth_zone_stack_matches_rule answers 'the badge is visible' and auth_zone_stack_has_amount answers "
+                 "'a proof of that resource with at least the amount is present' -- the statements decided by (b)",
+                 "(b) kernel substate reads answer from a symbolic table of AuthZone values; Proof::resource_address / "
+                 "amount / non_fungible_local_ids answer from a symbolic table of proofs; the package-of-direct-caller and "
+                 "global-caller badge ids (Blake2b of the address) are abstract injective functions of the caller; sets "
+                 "created by the code have room for 3 elements (2 are ever inserted)"],
     trusted_base=MIR_TB,
     mir=True,
 )
+
+
